@@ -574,9 +574,14 @@ func (w *world) checkOne(k akey) (class, what string) {
 		case ownFailedGood:
 			// the request that is being acknowledged is the one whose series INSERT failed
 			return "ack_although_own_series_insert_failed", what
+		case failedGood && w.cfg.Cluster:
+			// in cluster mode the cache is bypassed and every request re-sends its series rows: D2 cannot explain this
+			return "ack_without_series_row_after_failed_series_insert:cluster_mode", what
 		case failedGood:
 			// a row that would have satisfied the reader was part of a failed series INSERT and was never re-sent (D2)
 			return "ack_without_series_row_after_failed_series_insert", what
+		case len(w.badSince) > 0 && w.cfg.Cluster:
+			return "ack_without_series_row_after_rejected_request:cluster_mode", what
 		case len(w.badSince) > 0:
 			// the (day, fingerprint) pair was consumed from the cache by a request that was then rejected
 			return "ack_without_series_row_after_rejected_request", what
